@@ -139,10 +139,11 @@ def to_frame(xs, seed, cols=8):
 
 # ------------------------------------------------------------------ running the real models
 
-def run_model(det, variant, frame, bits, layout="C", keep_image=False):
+def run_model(det, variant, frame, bits, layout="C", keep_image=False, reuse_signal=False):
     from pyxel.models.readout_electronics import sar_adc, sar_adc_with_noise, simple_adc
 
-    det.signal.array = np.array(frame, order=layout)      # layout "F": the same values, column-major in memory
+    if not reuse_signal:      # (reuse_signal: convert the signal the detector still holds from the previous conversion)
+        det.signal.array = np.array(frame, order=layout)      # layout "F": the same values, column-major in memory
     if not keep_image:
         det.image.empty() if hasattr(det.image, "empty") else None
     if variant[0] == "simple_adc":
@@ -251,6 +252,18 @@ def run_case(case):
         if img.shape != frame.shape:
             bad("shape", f"image shape {img.shape} != signal shape {frame.shape}")
             continue
+        # the signal bucket the detector still holds converted once more (two converters in one pipeline, a converter
+        # applied twice): the first conversion must have left the signal as it was
+        try:
+            with np.errstate(all="ignore"):
+                img_re = run_model(det, variant, frame, bits, reuse_signal=True)
+        except Exception as e:  # noqa: BLE001
+            bad("second-call-raised", f"converting the same signal bucket again raised {type(e).__name__}: {str(e)[:200]}")
+            continue
+        if img_re.dtype != img.dtype or not np.array_equal(img_re, img):
+            j = int(np.nonzero(img_re.reshape(-1) != img.reshape(-1))[0][0])
+            bad("reconversion-differs", f"converting the signal bucket a second time (not re-assigned in between) gives another "
+                f"image, e.g. pixel {j} (signal {float(frame.reshape(-1)[j])!r} V): {img.reshape(-1)[j]} then {img_re.reshape(-1)[j]}")
         # history: the same conversion once more on the same detector (a second readout / second run in the same
         # process) must give the same image - converters are functions of (signal, settings) only
         # (the second call receives the frame in column-major memory layout: the same values)
